@@ -213,7 +213,7 @@ def run(pid, tier, seed, replay_only=None):
         for ob in so:
             if '[folded]' in ob.note or isinstance(ob, CachedOb):
                 continue
-            sjobs.append({'id': ob.id, 'texts': ob.texts(eng.ctx), 'budget_s': min(budget, 3.0), 'expect': 'unsat', 'confirm': True})
+            sjobs.append({'id': ob.id, 'texts': ob.texts(eng.ctx), 'budget_s': min(budget, 3.0), 'expect': 'unsat'})
     res = solve.solve_all(jobs + sjobs)
     res.update(cached_res)
     # retry inconclusive ones with a larger budget, few at a time (load robustness)
